@@ -125,6 +125,24 @@ class IoExec(Exec):
                 e = R.strip(inc["e"])
                 if e.get("k") == "DeclRef" and e.get("id") == ivid:
                     info["step"] = 1 if inc["op"] == "++" else -1
+        info["trip"] = None
+        cond = R.strip(s.get("cond")) if s.get("cond") is not None else None
+        if ivid and cond is not None and cond.get("k") == "Binary" and info["init"] is not None and info["step"] in (1, -1):
+            l, r_ = R.strip(cond["l"]), R.strip(cond["r"])
+            op = cond["op"]
+            if r_.get("k") == "DeclRef" and r_.get("id") == ivid:
+                l, r_, op = r_, l, R.FLIP[op]
+            if l.get("k") == "DeclRef" and l.get("id") == ivid:
+                b = self.ev(r_)
+                if b is not None:
+                    if info["step"] == 1 and op in ("<", "!="):
+                        info["trip"] = b - info["init"]
+                    elif info["step"] == 1 and op == "<=":
+                        info["trip"] = b - info["init"] + Poly.const(1)
+                    elif info["step"] == -1 and op in (">", "!="):
+                        info["trip"] = info["init"] - b
+                    elif info["step"] == -1 and op == ">=":
+                        info["trip"] = info["init"] - b + Poly.const(1)
         name = "y%d" % len(self.loops)
         info["iv"] = name
         # run the body once with the induction variable as a symbol
@@ -289,6 +307,7 @@ def run(rep):
     scanline_clone(rep, fns)
     devices(rep, wd)
     tables(rep, wd)
+    tiff_tiles(rep)
 
 
 def tmpl_arg(full, member):
@@ -350,8 +369,9 @@ def split_tokens(tokens):
     return out
 
 
-def run_case(fns, fmt, pix):
-    """abstractly execute writer::apply<View>, then reader_backend::read_header and reader::apply<View> on its output"""
+def run_case(fns, fmt, pix, partial=False):
+    """abstractly execute writer::apply<View>, then reader_backend::read_header and reader::apply<View> on its output;
+    partial: the reader is asked for the sub-rectangle (X0,Y0,DX,DY) instead of the whole image"""
     ws = [f for f in pick(fns, "writer::apply", fmt) if PIX[pix] in (tmpl_arg(f["full"], "apply") or "")]
     if not ws:
         raise C.AnalysisBroken("no writer::apply instantiation for %s/%s" % (fmt, pix))
@@ -392,6 +412,10 @@ def run_case(fns, fmt, pix):
     rx.env["M:_settings._top_left.y"] = Poly.const(0)
     rx.env["M:_settings._dim.x"] = rx.env.get("M:_info._width")
     rx.env["M:_settings._dim.y"] = rx.env.get("M:_info._height")
+    if partial:
+        for k, a in (("_top_left.x", "X0"), ("_top_left.y", "Y0"), ("_dim.x", "DX"), ("_dim.y", "DY")):
+            rx.ranges[a] = (1, DIM_MAX[fmt])
+            rx.env["M:_settings." + k] = Poly.atom(a)
     try:
         rx.invoke(ra[0], [])
     except Stop as s:
@@ -820,3 +844,87 @@ def scanline_clone(rep, fns):
     else:
         rep.violation("W4s-scanline-clone", "W4s:pnm", W + "extension/io/pnm/detail/scanline_read.hpp:%s" % a[0]["line"], {"scanline_reader": sa, "reader": sb})
     rep.floor("obligations:W4s", 1)
+
+
+def remaining_extent(rep, fns, rule, prefix, where_filter, floor):
+    """edge-tile rule shared by C12 (tiff writer) and C13 (tiff tile readers): `(a + T < L) ? T : E` must have E == L - a"""
+    import itertools
+    seen = {}
+    for f in fns:
+        if fmt_of(f) != "tiff" or not where_filter(f) or f.get("body") is None:
+            continue
+        for d, _ in R.find(f["body"], lambda x: x.get("k") == "Decl"):
+            for dd in d["decls"]:
+                init = R.strip(dd.get("init")) if dd.get("init") is not None else None
+                while init is not None and init.get("k") == "Paren":
+                    init = R.strip(init["e"])
+                if init is None or init.get("k") != "Cond":
+                    continue
+                c = R.strip(init["cond"])
+                while c.get("k") == "Paren":
+                    c = R.strip(c["e"])
+                if c.get("k") != "Binary" or c.get("op") != "<":
+                    continue
+                lhs = R.poly_of(c["l"])
+                L = R.poly_of(c["r"])
+                T = R.poly_of(init["then"])
+                a = lhs - T
+                if a.is_const() or not all(len(m) <= 1 for m in a.t):
+                    continue
+                E_node = R.strip(init["else"])
+                key = "%s:%s::%s:%s" % (prefix, f["name"].split("::")[-2], f["name"].split("::")[-1], dd["name"])
+                has_mod = bool(R.find(E_node, lambda x: x.get("k") == "Binary" and x.get("op") in ("%", "/", "&", ">>")))
+                E = R.poly_of(E_node)
+                want = L - a
+                if E == want:
+                    res = (True, "%s = min(%s, %s)" % (dd["name"], T, want))
+                elif not has_mod:
+                    res = (False, {"edge_extent": repr(E), "expected": repr(want), "condition": R.key(c)})
+                else:
+                    # non-polynomial expression: look for a witness with the tile origin a multiple of T
+                    wit = None
+                    ek = R.key(E_node)
+                    names = sorted({x for m in (list(L.t) + list(T.t) + list(a.t)) for x in m})
+                    if len(names) == 3:
+                        for Tv, Lv in itertools.product(range(1, 6), range(1, 13)):
+                            for av in range(0, Lv, Tv):
+                                if av + Tv < Lv:
+                                    continue
+                                env = {}
+                                for nm, p in (("T", T), ("L", L), ("a", a)):
+                                    env[list(p.t)[0][0] if list(p.t)[0] else nm] = {"T": Tv, "L": Lv, "a": av}[nm]
+                                try:
+                                    got = eval(re.sub(r"[A-Za-z_][A-Za-z0-9_.]*(\(\))?", lambda m: str(env.get(m.group(0), env.get(m.group(0).replace("()", ""), m.group(0)))), ek).replace("/", "//"))
+                                except Exception:
+                                    got = None
+                                if got is not None and got != Lv - av:
+                                    wit = {"tile": Tv, "extent": Lv, "origin": av, "edge_extent": got, "remaining": Lv - av}
+                                    break
+                            if wit:
+                                break
+                    res = (False, {"edge_extent": ek, "expected": repr(want), "witness": wit}) if wit else (None, ek)
+                if key not in seen or (seen[key][0] is True and res[0] is not True):
+                    seen[key] = res + (rel_path(f), d.get("line"))
+    for key, (ok, det, file, line) in sorted(seen.items()):
+        rep.count("obligations:" + rule.split("-")[0])
+        if ok is True:
+            rep.ok(rule, key, det)
+        elif ok is None:
+            rep.fail_analysis("%s: edge extent expression %s not recognised" % (key, det))
+        else:
+            rep.violation(rule, key, "%s:%s" % (file, line), dict(det, problem="the last tile of a row/column must cover exactly the remaining extent; otherwise edge pixels are not written/read or stale tile data is used"))
+    rep.floor("obligations:" + rule.split("-")[0], floor)
+
+
+def rel_path(f):
+    p = f.get("file", "")
+    i = p.find("include/boost/gil/")
+    return p[i:] if i >= 0 else p
+
+
+def tiff_tiles(rep):
+    from . import p13
+    wd = C.workdir("C12tiff")
+    fns = p13.io_ast(wd)
+    rep.rule("W6 tiff tiled writer: the extent copied for an edge tile is `(origin + tile < extent) ? tile : extent - origin` (exactly the remaining extent)")
+    remaining_extent(rep, fns, "W6-edge-tile", "W6", lambda f: "writer::" in f["name"], 2)
